@@ -372,7 +372,147 @@ proof! {
 	}
 }
 
+// ---------------------------------------------------------------- leaf set
+
+fn bitmap_from_bits(v: u64) -> Bitmap {
+	let mut b = Bitmap::new();
+	let mut i = 0u32;
+	while i < 64 {
+		if v >> i & 1 == 1 {
+			b.add(i);
+		}
+		i += 1;
+	}
+	b
+}
+fn bits_of(b: &Bitmap) -> u64 {
+	let mut v = 0u64;
+	let mut i = 0u32;
+	while i < 64 {
+		if b.contains(i) {
+			v |= 1u64 << i;
+		}
+		i += 1;
+	}
+	v
+}
+/// any set of 1-based positions 1..=LIM
+fn any_pos1_set() -> u64 {
+	let v: u64 = nd::any();
+	nd::assume(v & 1 == 0 && v & !ones_upto(LIM + 1) == 0);
+	v
+}
+fn leaves1() -> u64 {
+	// 1-based leaf positions
+	let mut leaves = 0u64;
+	let mut p = 0;
+	while p < NPOS {
+		if HT[p] == 0 {
+			leaves |= 1u64 << (p + 1);
+		}
+		p += 1;
+	}
+	leaves
+}
+
+#[cfg(any(kani, grin_verif))]
+proof! {
+	[bitmap, alloc] fn leaf_set_rewind() {
+		// LeafSet::rewind(cutoff, rm) = (set restricted to positions <= cutoff) united with rm;
+		// add / remove / includes / len / is_empty / n_unpruned_leaves_to_index are set operations
+		env::alloc_block(64);
+		let set0 = any_pos1_set();
+		let rm = any_pos1_set();
+		let cutoff: u8 = nd::any();
+		nd::assume(cutoff as u64 <= LIM);
+		let mut ls = LeafSet::verif_from_bitmap(bitmap_from_bits(set0));
+		let rmb = bitmap_from_bits(rm);
+		ls.rewind(cutoff as u64, &rmb);
+		let expect = (set0 & ones_upto(cutoff as u64 + 1)) | rm;
+		let mut got = 0u64;
+		let mut p = 0u64;
+		while p < LIM {
+			if ls.includes(p) {
+				got |= 1u64 << (p + 1);
+			}
+			p += 1;
+		}
+		check!(got == expect, "rewind keeps exactly the positions up to the cutoff and adds back the removed ones");
+		check!(ls.len() as u32 == expect.count_ones(), "len");
+		check!(ls.is_empty() == (expect == 0), "is_empty");
+		let idx: u8 = nd::any();
+		nd::assume(idx as u64 <= LIM + 1);
+		check!(ls.n_unpruned_leaves_to_index(idx as u64) == (expect & ones_upto(idx as u64)).count_ones() as u64, "n_unpruned_leaves_to_index counts the set below the index");
+		let q: u8 = nd::any();
+		nd::assume((q as u64) < LIM);
+		ls.add(q as u64);
+		check!(ls.includes(q as u64), "add");
+		ls.remove(q as u64);
+		check!(!ls.includes(q as u64), "remove");
+		cover!(set0 >> (cutoff as u64 + 1) != 0 && cutoff > 0, "positions above the cutoff dropped");
+		core::mem::forget(ls);
+	}
+}
+
+#[cfg(any(kani, grin_verif))]
+proof! {
+	[bitmap, alloc, bulk] fn leaf_set_removed_pre_cutoff() {
+		// removed_pre_cutoff = leaf positions <= cutoff that are neither unspent at the cutoff
+		// (set restricted to <= cutoff, plus the positions removed since) nor already pruned:
+		// exactly what a compaction at that cutoff may physically remove
+		env::alloc_block(64);
+		env::bitmap_select_max(8);
+		let (pl, c) = any_valid_state();
+		let set0 = any_pos1_set();
+		let rm = any_pos1_set();
+		let cutoff: u8 = nd::any();
+		nd::assume(cutoff as u64 <= LIM);
+		let ls = LeafSet::verif_from_bitmap(bitmap_from_bits(set0));
+		let rmb = bitmap_from_bits(rm);
+		let out = ls.removed_pre_cutoff(cutoff as u64, &rmb, &pl);
+		let unspent = (set0 & ones_upto(cutoff as u64 + 1)) | rm;
+		let expect = leaves1() & ones_upto(cutoff as u64 + 1) & !unspent & !(c << 1);
+		check!(bits_of(&out) == expect, "removed_pre_cutoff = spent, unpruned leaves up to the cutoff");
+		cover!(expect != 0, "something to remove");
+		core::mem::forget(ls);
+		core::mem::forget(pl);
+	}
+}
+
+#[cfg(any(kani, grin_verif))]
+proof! {
+	[bitmap, alloc, bulk] fn removed_excl_roots_keeps_roots() {
+		// store::pmmr::removed_excl_roots: of the positions to remove, the roots (those whose
+		// parent is not removed) are kept so that their hashes stay available for Merkle proofs
+		env::alloc_block(64);
+		let rem = any_pos1_set();
+		let out = grin_store::pmmr::verif_removed_excl_roots(&bitmap_from_bits(rem));
+		let mut expect = 0u64;
+		let mut p = 0usize;
+		while p < NPOS {
+			if rem >> (p + 1) & 1 == 1 {
+				// parent of p
+				let h = HT[p] as usize;
+				let q = if p + 1 < NPOS && HT[p + 1] as usize == h + 1 { p + 1 } else { p + (2usize << h) };
+				if q < NPOS && rem >> (q + 1) & 1 == 1 {
+					expect |= 1u64 << (p + 1);
+				}
+			}
+			p += 1;
+		}
+		// parents outside the universe: only when p is on the right spine, which LIM excludes below
+		check!(bits_of(&out) == expect, "removed_excl_roots = removed positions whose parent is removed too");
+		cover!(expect != 0 && expect != rem, "some kept, some removed");
+	}
+}
+
 pub const HARNESSES: &[(&str, fn())] = &[
+	#[cfg(any(kani, grin_verif))]
+	("c08::leaf_set_rewind", leaf_set_rewind),
+	#[cfg(any(kani, grin_verif))]
+	("c08::leaf_set_removed_pre_cutoff", leaf_set_removed_pre_cutoff),
+	#[cfg(any(kani, grin_verif))]
+	("c08::removed_excl_roots_keeps_roots", removed_excl_roots_keeps_roots),
 	("c08::prune_list_queries", prune_list_queries),
 	("c08::prune_list_append_step", prune_list_append_step),
 	("c08::prune_list_init_caches", prune_list_init_caches),
